@@ -18,9 +18,19 @@ TX = {
 LIMITS = {"LimNone": -1, "Lim128": 128, "Lim0": 0, "Lim200": 200}
 
 
+def _inj(k, m, g, t, size, eat):
+    return {"k": k, "m": m, "g": g, "t": t, "size": size, "eat": eat}
+
+
+# must mirror MC_Net.tla
+INJECT = {"NoInject": [],
+          "InjectMix": [_inj("msg", "b", "", 2, 1, 0), _inj("exit", "", "ao", 1, 2, 0), _inj("msg", "b", "", 0, 1, 0),
+                        _inj("msg", "a", "", 1, 1, 0), _inj("exit", "", "bo", 0, 1, 0)]}
+
+
 class Scn:
     def __init__(self, name, topo="T1", stages="One1", stack="One0", catch="OneF", tx="TxLin", lat="Lat1", pol="PolDrop",
-                 lim="LimNone", menu="MenuChan", start="StartChan", max_inv=6, max_t=12, fix_drain=True, jitter_ns=0, endfail="NoEndFail", replay="NoReplay"):
+                 lim="LimNone", menu="MenuChan", start="StartChan", max_inv=6, max_t=12, fix_drain=True, jitter_ns=0, endfail="NoEndFail", replay="NoReplay", inject="NoInject"):
         self.__dict__.update(locals())
 
     def mods(self):
@@ -32,7 +42,7 @@ class Scn:
         return (f"Mods <- {'ModsAB' if t == 'T1' else 'ModsABC'} Stages <- {self.stages} Stack <- {self.stack} Catch <- {self.catch} EndFail <- {self.endfail} "
                 f"Route <- Route{t} GateOwner <- Owner{t}\n Chans = {chans} TxOf <- {self.tx} LatOf <- {self.lat} PolicyOf <- {self.pol} "
                 f"LimitOf <- {self.lim} BytesOf <- {TX[self.tx]['BytesOf']}\n Menu <- {self.menu} StartMenu <- {self.start} "
-                f"MaxInv = {self.max_inv} MaxT = {self.max_t} FixDrain = {'TRUE' if self.fix_drain else 'FALSE'} ReplayScripts <- {self.replay}")
+                f"MaxInv = {self.max_inv} MaxT = {self.max_t} FixDrain = {'TRUE' if self.fix_drain else 'FALSE'} ReplayScripts <- {self.replay} Inject <- {self.inject}")
 
     def harness_cfg(self):
         tx = TX[self.tx]
@@ -48,7 +58,8 @@ class Scn:
               "limit": LIMITS[self.lim], "jitter_ns": self.jitter_ns}
         return {"mods": self.mods(), "topo": self.topo, "stages": stages, "stack": stack, "catch": catch,
                 "chans": {"1": ch, "2": ch}, "tick_ns": tx["tick_ns"], "bytes": tx["bytes"], "max_t": self.max_t,
-                "per_module": self.jitter_ns > 0, "endfail": ["a"] if self.endfail == "EndFailA" else []}
+                "per_module": self.jitter_ns > 0, "endfail": ["a"] if self.endfail == "EndFailA" else [],
+                "inject": INJECT[self.inject]}
 
 
 def run_scn(v, wd, prop, scn, mc=True, heap=False):
@@ -252,6 +263,9 @@ def c07(tier):
         # jitter of 1 us on a 1 ms tick grid: arrivals stay inside their tick, busy periods must not be stretched by the jitter
         Scn("jitter_drop", pol="PolDrop", max_inv=n, jitter_ns=1000),
         Scn("jitter_queue", pol="PolQueue", lim="Lim128", max_inv=n, jitter_ns=1000),
+        # messages put into the event set from outside before the run (handle_message_on / add_message_onto), competing with
+        # the modules' own traffic for the channel
+        Scn("inject_queue", pol="PolQueue", max_inv=n - 1, inject="InjectMix"),
     ]
     if tier == "thorough":
         fam.append(Scn("queue_lat0", pol="PolQueue", lat="Lat0", max_inv=n))
@@ -277,6 +291,8 @@ def c09(tier):
     fam = [
         Scn("life", menu="MenuLife", start="StartLife", tx="TxLin", pol="PolQueue", max_inv=n, max_t=10),
         Scn("life2stages", menu="MenuLife", start="StartLife", stages="Stages212", tx="TxZero", max_inv=n - 1, max_t=10),
+        # messages injected from outside for a module that may be down when they arrive
+        Scn("life_inject", menu="MenuLife", start="StartLife", tx="TxLin", pol="PolQueue", max_inv=n - 2, max_t=10, inject="InjectMix"),
         Scn("transit", topo="T2", menu="MenuTrans", start="StartTrans", tx="TxLin", pol="PolQueue", max_inv=n, max_t=10),
     ]
     for s in fam:
@@ -313,6 +329,10 @@ def c13(tier):
     for s in fam:
         run_scn(v, wd, "C13", s)
     random_families(v, wd, "C13", tier)
+    # panics inside tasks, joined with join / try_join / not at all: confined to the task, reported exactly
+    import c_async
+    c_async.family(v, wd, "C13", "task_panic", 2, "ProgsPanic", 14, join_modes=True,
+                   what="a task panics at any step while the other task sends / receives / sleeps; join, try_join, handle dropped")
     # the design-level statement: a module that panicked is never active again.  PanickedInertUnlessPending (part of every run
     # above) holds; the full statement fails exactly through a restart the module had requested itself (F-C13-1), and the
     # scenarios in which the interpreter predicts that were confirmed on the real simulation by the replays above
